@@ -3,3 +3,4 @@ pub mod l2;
 pub mod l2props;
 pub mod l3;
 pub mod props;
+pub mod rt;
